@@ -20,6 +20,22 @@ func factsAll() {
 	factsWalletTx()
 	factsKeeper()
 	factsConfig()
+	factsMiner()
+}
+
+// factsMiner: constants of the v1 miner's proof search (C08).
+func factsMiner() {
+	const d = "poc/engine/pocminer/miner"
+	intFact("minerAllowAhead", d, "allowAhead")
+	intFact("minerPocSlot", d, "pocSlot")
+	// submitBlock gives the block up on quit and when the best block is no longer the block's previous block
+	fd := findFuncAny(d, "submitBlock")
+	src := ""
+	if fd != nil {
+		src = srcOf(d, fd)
+	}
+	emit("/-- `submitBlock` in %s polls `quit` while it waits and compares `BestBlockHash()` with the header's previous block before `ProcessBlock` -/\ndef minerSubmitChecksQuitAndTip : Bool := %v", d,
+		strings.Contains(src, "case <-quit:") && strings.Contains(src, "BestBlockHash()") && strings.Index(src, "BestBlockHash()") < strings.Index(src, "ProcessBlock("))
 }
 
 // factsConfig: the constants of the capacity configuration arithmetic (C15).
